@@ -339,6 +339,14 @@ where
                 self.inner.sink.is_disconnect_sent();
                 self.inner.control(ProtocolMessage::remote_disconnect()).await
             }
+            Decoded::Packet(
+                pkt @ (Packet::SubscribeAck { .. } | Packet::UnsubscribeAck { .. }),
+                _,
+            ) => Err(ProtocolError::unexpected_packet(
+                pkt.packet_type(),
+                "Packet of the type is not expected from client",
+            )
+            .into()),
             Decoded::Packet(..) => Ok(None),
         }
     }
